@@ -319,6 +319,18 @@ def hist_skeletons(tier: str = "quick") -> List[Tree]:
                     if xkind == "C" and s1 == F_ and s2 == F_:
                         continue
                     out.append(("C", ((xkind, ((hk, ()), s1, s2)), A_)))
+    # the history owner is itself a REGION of a parallel state (or sits inside one) and a sibling region holds active
+    # states at the owner's depth and deeper: what the owner remembers must be its own descendants only
+    caa = ("C", (A_, A_))
+    sibs = [caa, ("C", (A_, caa))]
+    for hk in ("Hs", "Hd"):
+        owner = ("C", ((hk, ()), A_, A_))
+        for sib in sibs:
+            out.append(("C", (("P", (owner, sib)), A_)))
+            out.append(("C", (("P", (sib, owner)), A_)))
+        if tier != "quick":
+            out.append(("C", (("P", (("C", (owner,)), sibs[1])), A_)))
+            out.append(("C", (("P", (sibs[1], ("C", (owner,)))), A_)))
     return out
 
 
@@ -340,6 +352,28 @@ def par_skeletons(tier: str = "quick") -> List[Tree]:
             for s2 in menu[:3]:
                 for s3 in menu[:2]:
                     out.append(("C", (("P", (s1, s2, s3)), A_)))
+    return out
+
+
+def done_skeletons(tier: str = "quick") -> List[Tree]:
+    """Structured larger trees around completion through a nested parallel state: root C( X=C( P(s1, s2), F ), A ) -
+    a compound state with an onDone of its own wraps a parallel state whose regions finish one at a time (6-9 non-root
+    nodes, beyond TREE(N<=5)); thorough adds deeper regions, three regions and a parallel-in-parallel wrapper."""
+    A_, F_ = ("A", ()), ("F", ())
+    caf = ("C", (A_, F_))
+    menu = [A_, F_, caf]
+    out: List[Tree] = []
+    for s1 in menu:
+        for s2 in menu:
+            out.append(("C", (("C", (("P", (s1, s2)), F_)), A_)))
+    if tier != "quick":
+        deep = [("C", (A_, ("C", (A_, F_)))), ("P", (caf, F_))]
+        for s1 in menu + deep:
+            for s2 in deep:
+                out.append(("C", (("C", (("P", (s1, s2)), F_)), A_)))
+        out.append(("C", (("C", (("P", (caf, caf, caf)), F_)), A_)))
+        for s1 in menu:
+            out.append(("C", (("P", (("P", (s1, caf)), caf)), A_)))
     return out
 
 
